@@ -35,7 +35,7 @@
        raw vs. Go names), which is the known finding; termination / absence of Go panics on
        well-formed programs is not proved (the theorems assume the outcome [Trimmed]; the
        correspondence check reports OutOfFuel as code 9 and has never seen it). *)
-From Coq Require Import List Bool Arith.
+From Coq Require Import List Bool Arith ZArith.
 From Verif Require Import Base.Bytes Idl.Ast Idl.AstUtil Idl.Trim Idl.TrimSpec Idl.TrimWitness Idl.TrimFacts.
 From Verif Require Idl.Resolve Idl.ResolveSpec Idl.ResolveInv Idl.ResolvableSpec Idl.ResolvableConst Idl.TrimResolves.
 Import ListNotations.
@@ -222,13 +222,12 @@ Print Assumptions C16_trim_resolves_partial.
    specification prescribes ([ResolveInv.occ_good] for every type occurrence: what
    [resolve_program_good] proves of every result of the resolver); the parser's three
    struct-like lists hold what their names say.
-   Hypotheses on the OUTPUT that remain (decidable; not proved here): its base services
-   resolve ([base_ok]; for the no-filter case C16_base_service_survives_partial shows that
-   the base service and its include are kept, the link to [spec_include] for services is
-   missing), every identifier used as a value keeps exactly one explanation ([ident_ok]: the
-   counting argument is not done), and the include tree of the output is lower than its number
-   of files (it is a subgraph of the input's acyclic include graph; the pigeonhole step is not
-   done).  Proved: distinct plain global names, every type of every kept definition is
+   Hypotheses on the OUTPUT in THIS statement (decidable): its base services resolve
+   ([base_ok]: discharged without a method filter in C16_trim_resolves_no_filter_partial),
+   every identifier used as a value keeps exactly one explanation ([ident_ok]: the counting
+   argument is not done), and the include tree of the output is lower than its number of files
+   (discharged for every configuration: C16_trimmed_includes_ok,
+   C16_trim_resolves_given_bases_and_idents).  Proved: distinct plain global names, every type of every kept definition is
    accepted (typedef chains across files, qualified names after includes were deleted), void
    functions. *)
 Theorem C16_trim_resolves :
@@ -245,6 +244,57 @@ Theorem C16_trim_resolves :
     Idl.ResolvableConst.resolvable q = true /\ exists r, Idl.Resolve.resolve_program q = Idl.Resolve.Ok r.
 Proof. exact Idl.TrimResolves.trim_resolves_with. Qed.
 Print Assumptions C16_trim_resolves.
+
+(* ... with the include-depth hypothesis discharged (every configuration): the include tree of
+   the output lies inside the input's acyclic one and is closed, and an acyclic tree on n files
+   is lower than n (pigeonhole) *)
+Theorem C16_trimmed_includes_ok :
+  forall (matches : bytes -> bytes -> bool) cp c p q fin,
+    reach cp c p false (prog_size p) fin (main_name p) [] = Ok q ->
+    Idl.ResolvableConst.resolvable p = true ->
+    match q with [] => true | (mn, _) :: _ => Idl.ResolvableSpec.includes_ok (S (List.length q)) q mn end = true.
+Proof. exact Idl.TrimResolves.trimmed_includes_ok. Qed.
+Print Assumptions C16_trimmed_includes_ok.
+
+Theorem C16_trim_resolves_given_bases_and_idents :
+  forall matches cp c p q fin, wf p ->
+    mark_ast matches cp c p (prog_size p) = Ok fin ->
+    reach cp c p false (prog_size p) fin (main_name p) [] = Ok q ->
+    Idl.ResolvableConst.resolvable p = true ->
+    (forall fn f, prog_file p fn = Some f -> forall t, In t (Idl.ResolveSpec.file_occs f) -> Idl.ResolveInv.occ_good p fn f t) ->
+    (forall fn f k s, prog_file p fn = Some f -> In s (sl_list k f) -> sl_category s = k) ->
+    (forall F qf, In (F, qf) q -> forallb (Idl.ResolvableSpec.base_ok q F qf) (f_services qf) = true) ->
+    (forall F qf, In (F, qf) q ->
+       forallb (Idl.ResolvableSpec.cv_idents_ok (Idl.ResolvableConst.ident_ok q F)) (file_top_const_values qf) = true) ->
+    Idl.ResolvableConst.resolvable q = true /\ exists r, Idl.Resolve.resolve_program q = Idl.Resolve.Ok r.
+Proof. exact Idl.TrimResolves.trim_resolves_given_bases_and_idents. Qed.
+Print Assumptions C16_trim_resolves_given_bases_and_idents.
+
+(* trim_resolves WITHOUT a method filter: base services are discharged too.  Additional
+   hypothesis on the input: the recorded reference of every base service is the include C05's
+   specification chooses ([spec_include is_service_kind]; C05 proves the analogous fact for
+   types, not for services).  The only hypothesis left on the output: every identifier used as a
+   value keeps exactly one explanation. *)
+Theorem C16_trim_resolves_no_filter_partial :
+  forall matches cp c p q fin, wf p ->
+    mark_ast matches cp c p (prog_size p) = Ok fin ->
+    reach cp c p false (prog_size p) fin (main_name p) [] = Ok q ->
+    Idl.ResolvableConst.resolvable p = true ->
+    (forall fn f, prog_file p fn = Some f -> forall t, In t (Idl.ResolveSpec.file_occs f) -> Idl.ResolveInv.occ_good p fn f t) ->
+    (forall fn f k s, prog_file p fn = Some f -> In s (sl_list k f) -> sl_category s = k) ->
+    filtering c = false ->
+    (forall fn f s, prog_file p fn = Some f -> In s (f_services f) ->
+       match split_type (sv_extends s) with
+       | [pre; m] => exists i gn, Idl.ResolveSpec.spec_include p Idl.ResolveSpec.is_service_kind pre m
+                                    (Idl.ResolveSpec.file_incs f) 0 = Some (i, gn) /\
+                                  sv_ref s = Some (Ref m (Z.of_nat i))
+       | _ => sv_ref s = None
+       end) ->
+    (forall F qf, In (F, qf) q ->
+       forallb (Idl.ResolvableSpec.cv_idents_ok (Idl.ResolvableConst.ident_ok q F)) (file_top_const_values qf) = true) ->
+    Idl.ResolvableConst.resolvable q = true /\ exists r, Idl.Resolve.resolve_program q = Idl.Resolve.Ok r.
+Proof. exact Idl.TrimResolves.trim_resolves_no_filter. Qed.
+Print Assumptions C16_trim_resolves_no_filter_partial.
 
 (* the part of it that needs no hypothesis on the output: types *)
 Theorem C16_trimmed_types_resolve :
